@@ -237,6 +237,231 @@ def _expand(repo, f, call, depth, stack):
     return stmts, ast.copy_location(ast.Name(id=ret, ctx=ast.Load()), call)
 
 
+# ------------------------------------------------------------------------------------------------ context managers
+_CM_DECOS = {"contextmanager", "contextlib.contextmanager"}
+
+
+def _bind_args(g, decos, call, suffix, allow_vararg=False):
+    """(prelude, param -> expression) binding the parameters of g to the arguments of call, or None"""
+    params = [a.arg for a in g.node.args.posonlyargs + g.node.args.args]
+    kwonly = [a.arg for a in g.node.args.kwonlyargs]
+    if g.node.args.kwarg or (g.node.args.vararg and not allow_vararg):
+        return None
+    if any(isinstance(a, ast.Starred) for a in call.args) or any(k.arg is None for k in call.keywords):
+        return None
+    pre, exprs = [], {}
+    bound = list(params)
+    if "staticmethod" not in decos and g.cls is not None:
+        if not bound:
+            return None
+        first = bound.pop(0)
+        exprs[first] = ast.Name(id="self", ctx=ast.Load())
+    defaults = {}
+    pos = g.node.args.posonlyargs + g.node.args.args
+    for p_, d in zip(pos[len(pos) - len(g.node.args.defaults):], g.node.args.defaults):
+        defaults[p_.arg] = d
+    for p_, d in zip(g.node.args.kwonlyargs, g.node.args.kw_defaults):
+        if d is not None:
+            defaults[p_.arg] = d
+    given = {}
+    extra = list(call.args[len(bound):])
+    if extra and not g.node.args.vararg:
+        return None
+    for p_, a in zip(bound, call.args):
+        given[p_] = a
+    for kw in call.keywords:
+        if kw.arg not in bound + kwonly or kw.arg in given:
+            return None
+        given[kw.arg] = kw.value
+    assigned = {n.id for n in ast.walk(g.node) if isinstance(n, ast.Name) and isinstance(n.ctx, ast.Store)}
+    for p_ in bound + kwonly:
+        a = given.get(p_, defaults.get(p_))
+        if a is None:
+            return None
+        if _simple(a) and p_ not in assigned:
+            exprs[p_] = a
+        else:
+            tmp = p_ + suffix
+            st = ast.Assign(targets=[ast.Name(id=tmp, ctx=ast.Store())], value=copy.deepcopy(a))
+            ast.copy_location(st, call)
+            pre.append(st)
+            exprs[p_] = ast.Name(id=tmp, ctx=ast.Load())
+    if g.node.args.vararg:
+        if not all(_simple(a) for a in extra):
+            return None
+        exprs[g.node.args.vararg.arg] = ast.Tuple(elts=[copy.deepcopy(a) for a in extra], ctx=ast.Load())
+    return pre, exprs, assigned - set(exprs)
+
+
+def _new_helper(repo, f, fn):
+    """FuncInfo + decorators of a new (not inventoried) same-file function/method named by expression fn, or None"""
+    g = None
+    if isinstance(fn, ast.Attribute) and f.cls is not None and isinstance(fn.value, ast.Name) and fn.value.id in ("self", "cls", f.cls.name):
+        g = repo.find_method(f.cls, fn.attr)
+    elif isinstance(fn, ast.Name):
+        cand = f.mod.functions.get(fn.id)
+        if cand is not None and cand.cls is None:
+            g = cand
+    if g is None or g is f or g.mod is not f.mod or (g.mod.rel, g.dqual) in _known():
+        return None
+    return g, {ast.unparse(d) for d in g.node.decorator_list}
+
+
+class _YieldToBody(ast.NodeTransformer):
+    def __init__(self, body, asname):
+        self.body, self.asname, self.n = body, asname, 0
+
+    def visit_FunctionDef(self, n):
+        return n
+
+    visit_Lambda = visit_AsyncFunctionDef = visit_FunctionDef
+
+    def visit_Expr(self, n):
+        if isinstance(n.value, ast.Yield):
+            self.n += 1
+            pre = []
+            if self.asname is not None:
+                pre = [ast.copy_location(ast.Assign(targets=[copy.deepcopy(self.asname)], value=n.value.value or ast.Constant(value=None)), n)]
+            return pre + self.body
+        return n
+
+
+def _expand_with(repo, f, s, depth, stack):
+    """`with cm(args): BODY` -> the statements of a *new* single-yield @contextmanager generator with BODY in place of the
+    yield (an exception raised by BODY is re-raised at the yield, which is what the surrounding try of the generator sees);
+    `with C(args): BODY` / `x = C(args) ... with x: BODY` for a new class whose __exit__ starts with the usual type guard ->
+    `try: BODY except <that type>: <rest of __exit__>`.  None when the statement is not of these shapes."""
+    if len(s.items) != 1 or depth <= 0:
+        return None
+    item = s.items[0]
+    ce = item.context_expr
+    if isinstance(ce, ast.Name):
+        # x = C(..) earlier in the function, bound once
+        defs = [a for a in ast.walk(f.node) if isinstance(a, ast.Assign) and len(a.targets) == 1 and isinstance(a.targets[0], ast.Name) and a.targets[0].id == ce.id]
+        if len(defs) == 1 and isinstance(defs[0].value, ast.Call):
+            ce = defs[0].value
+    if not isinstance(ce, ast.Call):
+        return None
+    k = next(_counter)
+    suffix = "__inl%d" % k
+    r = _new_helper(repo, f, ce.func)
+    if r is not None:
+        g, decos = r
+        if not (decos & _CM_DECOS) or (decos - _CM_DECOS - {"staticmethod"}) or g.key in stack:
+            return None
+        yields = [n for n in _walk_no_nested_stmt(g.node) if isinstance(n, (ast.Yield, ast.YieldFrom))]
+        if len(yields) != 1 or any(isinstance(n, ast.Return) for n in _walk_no_nested_stmt(g.node)):
+            return None
+        b = _bind_args(g, decos, ce, suffix, allow_vararg=True)
+        if b is None:
+            return None
+        pre, exprs, local_names = b
+        body = list(g.node.body)
+        if body and isinstance(body[0], ast.Expr) and isinstance(body[0].value, ast.Constant) and isinstance(body[0].value.value, str):
+            body = body[1:]
+        sub = _Subst(local_names, exprs, suffix, "__ret%d" % k, False)
+        new = []
+        for st in copy.deepcopy(body):
+            o = sub.visit(st)
+            new.extend(o if isinstance(o, list) else [o])
+        y2b = _YieldToBody(s.body, item.optional_vars)
+        out = []
+        for st in new:
+            o = y2b.visit(st)
+            out.extend(o if isinstance(o, list) else [o])
+        if y2b.n != 1:
+            return None
+        for st in pre + out:
+            ast.fix_missing_locations(st)
+        res = []
+        for st in pre + out:
+            o = _inline_stmt(repo, f, st, depth - 1, stack | {g.key})
+            res.extend(o if isinstance(o, list) else [o])
+        return res
+    # class-based
+    if isinstance(ce.func, ast.Name) and item.optional_vars is None:
+        c = f.mod.classes.get(ce.func.id)
+        if c is None or any((c.mod.rel if hasattr(c, "mod") else f.mod.rel, m.dqual) in _known() for m in c.methods.values()):
+            return None
+        init, ent, ext = c.methods.get("__init__"), c.methods.get("__enter__"), c.methods.get("__exit__")
+        if init is None or ent is None or ext is None:
+            return None
+        # __init__: self.a = a only
+        attrs = {}
+        for st in init.node.body:
+            if isinstance(st, ast.Expr) and isinstance(st.value, ast.Constant):
+                continue
+            if isinstance(st, ast.Assign) and len(st.targets) == 1 and isinstance(st.targets[0], ast.Attribute) and isinstance(st.targets[0].value, ast.Name) and st.targets[0].value.id == "self" and isinstance(st.value, ast.Name):
+                attrs[st.targets[0].attr] = st.value.id
+            else:
+                return None
+        b = _bind_args(init, set(), ce, suffix, allow_vararg=True)
+        if b is None:
+            return None
+        pre, exprs, _ = b
+        eparams = [a.arg for a in ext.node.args.args]
+        if len(eparams) != 4:
+            return None
+        et = eparams[1]
+        body = list(ext.node.body)
+        if body and isinstance(body[0], ast.Expr) and isinstance(body[0].value, ast.Constant):
+            body = body[1:]
+        if not body or not isinstance(body[0], ast.If):
+            return None
+        g0 = ast.unparse(body[0].test).replace(" ", "")
+        exc = rest = None
+        import re as _re
+        m1 = _re.fullmatch(r"%sisNoneornotissubclass\(%s,(\w+)\)" % (et, et), g0)
+        m2 = _re.fullmatch(r"%sisnotNoneandissubclass\(%s,(\w+)\)" % (et, et), g0)
+        passthrough = None   # exception classes that leave the block untouched (re-raised before the clean-up handler)
+        if m1 and len(body[0].body) == 1 and isinstance(body[0].body[0], ast.Return) and not body[0].orelse:
+            exc, rest = m1.group(1), body[1:]
+        elif m2 and not body[0].orelse and all(isinstance(x, ast.Return) for x in body[1:]):
+            exc, rest = m2.group(1), body[0].body
+            # `if not issubclass(exc_type, self.expected): <clean-up>` inside the guard
+            if len(rest) == 1 and isinstance(rest[0], ast.If) and not rest[0].orelse:
+                m3 = _re.fullmatch(r"notissubclass\(%s,self\.(\w+)\)" % et, ast.unparse(rest[0].test).replace(" ", ""))
+                if m3 and m3.group(1) in attrs and attrs[m3.group(1)] in exprs:
+                    passthrough = copy.deepcopy(exprs[attrs[m3.group(1)]])
+                    rest = rest[0].body
+        if exc is None:
+            return None
+
+        class _SelfAttr(ast.NodeTransformer):
+            def visit_Attribute(self, n):
+                if isinstance(n.value, ast.Name) and n.value.id == "self" and n.attr in attrs and attrs[n.attr] in exprs:
+                    return copy.deepcopy(exprs[attrs[n.attr]])
+                return self.generic_visit(n)
+
+            def visit_Name(self, n):
+                return n
+
+            def visit_Return(self, n):
+                swallow = isinstance(n.value, ast.Constant) and n.value.value is True
+                return ast.copy_location(ast.Pass() if swallow else ast.Raise(exc=None, cause=None), n)
+
+        hbody = []
+        for st in copy.deepcopy(rest):
+            o = _SelfAttr().visit(st)
+            hbody.append(o)
+        if not hbody or not isinstance(hbody[-1], (ast.Raise, ast.Pass)):
+            hbody.append(ast.Raise(exc=None, cause=None))
+        handlers = []
+        if passthrough is not None:
+            handlers.append(ast.ExceptHandler(type=passthrough, name=None, body=[ast.Raise(exc=None, cause=None)]))
+        handlers.append(ast.ExceptHandler(type=ast.Name(id=exc, ctx=ast.Load()), name=None, body=hbody))
+        tr = ast.Try(body=s.body, handlers=handlers, orelse=[], finalbody=[])
+        ast.copy_location(tr, s)
+        for st in pre + [tr]:
+            ast.fix_missing_locations(st)
+        res = []
+        for st in pre + [tr]:
+            o = _inline_stmt(repo, f, st, depth - 1, stack)
+            res.extend(o if isinstance(o, list) else [o])
+        return res
+    return None
+
+
 def _walk_no_nested_stmt(node):
     yield node
     for ch in ast.iter_child_nodes(node):
@@ -266,6 +491,24 @@ def _inline_stmt(repo, f, s, depth, stack):
 
     if isinstance(s, (ast.FunctionDef, ast.AsyncFunctionDef, ast.ClassDef)):
         return s
+    if isinstance(s, ast.With):
+        blocks(s)
+        r = _expand_with(repo, f, s, depth, stack)
+        if r is not None:
+            return r
+        return s
+    if isinstance(s, (ast.Assign, ast.Return)) and isinstance(s.value, ast.IfExp) and depth > 0:
+        # `x = helper(..) if c else y`  ->  `if c: x = helper(..) else: x = y` when an arm is an expandable call
+        ie = s.value
+        if any(isinstance(a, ast.Call) and _callee(repo, f, a) is not None for a in (ie.body, ie.orelse)):
+            def arm(v):
+                n = copy.copy(s)
+                n.value = v
+                return n
+            st = ast.If(test=ie.test, body=[arm(ie.body)], orelse=[arm(ie.orelse)])
+            ast.copy_location(st, s)
+            ast.fix_missing_locations(st)
+            return _inline_stmt(repo, f, st, depth, stack)
     call, setter = None, None
     if isinstance(s, ast.Expr) and isinstance(s.value, ast.Call):
         call = s.value
@@ -324,6 +567,14 @@ def helpers_of(repo, f, depth=3):
         if d <= 0:
             return
         for c in ast.walk(g.node):
+            if isinstance(c, ast.With):
+                for it in c.items:
+                    if isinstance(it.context_expr, ast.Call):
+                        r = _new_helper(repo, g, it.context_expr.func)
+                        if r is not None and (r[1] & _CM_DECOS) and r[0].key not in seen:
+                            seen.add(r[0].key)
+                            out.append(r[0])
+                            rec(r[0], d - 1)
             if isinstance(c, ast.Call):
                 r = _callee(repo, g, c)
                 if r is not None and r[0].key not in seen:
